@@ -220,6 +220,75 @@ def widening : List FK → Bool
   | a :: b :: rest => a.le b && widening (b :: rest)
   | _ => true
 
+/-- The entry points through which a float dtype reaches the model. -/
+inductive Entry where
+  | viaBindConst (aval : Option FK) (arr : FK)
+  | viaLiteral (aval prefer : Option FK) (src : FK)
+  | viaInitScalar (src : FK)
+  | viaClosedConst (aval : Option FK) (src : FK)
+  | viaAlloc (aval : FK)
+  | viaInput (aval : FK)
+  deriving Repr, DecidableEq
+
+def optNoF64 : Option FK → Bool
+  | some .f64 => false
+  | _ => true
+
+def fkNoF64 : FK → Bool
+  | .f64 => false
+  | _ => true
+
+/-- "No float64 enters": none of the dtypes handed to the entry point is float64. This is what
+    JAX guarantees while `jax_enable_x64` is off. -/
+def Entry.noF64 : Entry → Bool
+  | .viaBindConst aval arr => optNoF64 aval && fkNoF64 arr
+  | .viaLiteral aval prefer src => optNoF64 aval && optNoF64 prefer && fkNoF64 src
+  | .viaInitScalar src => fkNoF64 src
+  | .viaClosedConst aval src => optNoF64 aval && fkNoF64 src
+  | .viaAlloc aval => fkNoF64 aval
+  | .viaInput aval => fkNoF64 aval
+
+/-- The bound constant, for the entry points that bind one (`closedConst` always runs in the
+    top-level context). -/
+def Entry.bound (P : Policy) (c : Ctx) : Entry → Option Bound
+  | .viaBindConst aval arr => some (bindConst P c aval arr)
+  | .viaLiteral aval prefer src => some (bindLiteral P c aval prefer src)
+  | .viaInitScalar src => some (initScalar P c src)
+  | .viaClosedConst aval src => some (closedConst P c.flag aval src)
+  | .viaAlloc _ => none
+  | .viaInput _ => none
+
+/-- Declared element type. -/
+def Entry.code (P : Policy) (c : Ctx) : Entry → Nat
+  | .viaAlloc aval => allocValue P c aval
+  | .viaInput aval => inputValue P c aval
+  | e => match e.bound P c with
+    | some b => b.code
+    | none => 0
+
+/-- Stored dtype of the constant in the final model (after post-processing), if any. -/
+def Entry.stored (P : Policy) (c : Ctx) (e : Entry) : Option FK :=
+  (e.bound P c).map (fun b => b.final c.flag)
+
+def optF64orNone : Option FK → Bool
+  | none => true
+  | some .f64 => true
+  | _ => false
+
+/-- "All-float64 context": every aval / preferred dtype handed to the entry point is float64 or
+    absent — what holds at every constant of a callable whose JAX evaluation under x64 involves
+    only float64 floating values. -/
+def Entry.f64ctx : Entry → Bool
+  | .viaBindConst aval _ => optF64orNone aval
+  | .viaLiteral aval prefer _ => optF64orNone aval && optF64orNone prefer
+  | .viaInitScalar _ => true
+  | .viaClosedConst aval _ => optF64orNone aval
+  | .viaAlloc aval => aval == .f64
+  | .viaInput aval => aval == .f64
+
+/-- The whole dtype path of a bound constant including the post-processing step. -/
+def Bound.fullPath (b : Bound) (flag : Bool) : List FK := b.path ++ [b.final flag]
+
 /-! ## 3. The model scanner -/
 
 /-- One place in a model where an element type is written down. -/
@@ -345,6 +414,14 @@ def Prog.noSet : Prog → Bool
   | .set _ => false
   | .seq a b => a.noSet && b.noSet
   | .withCm _ body => body.noSet
+
+/-- Straight-line code: no `jax.config.update`, no further context manager. -/
+def Prog.plain : Prog → Bool
+  | .skip => true
+  | .raise => true
+  | .set _ => false
+  | .seq a b => a.plain && b.plain
+  | .withCm _ _ => false
 
 /-- The public entry point: `with _temporary_x64(flag): (with _force_jax_x64(flag): body);
     post` — `body` is tracing + lowering + optimisation, `post` is `postprocess_ir_model`. -/
